@@ -58,6 +58,10 @@ type failer interface {
 	Skipf(format string, args ...any)
 }
 
+// VERIF_C19_API_ONLY=1 switches the key/TTL comparison off (sensitivity experiments:
+// shows what the Acquire/Release results alone detect).  Never set by check.json.
+var c19APIOnly = verifkit.EnvInt("c19_api_only", 0) == 1
+
 func c19Lease(sec int) int64 { return int64(sec)*1000 + 500 } // "configured seconds plus 500 ms"
 
 type c19Inst struct {
@@ -119,6 +123,8 @@ func c19NewWorld(f failer, st *verifkit.Stats, nOnKey []int, secs []int) *c19Wor
 }
 
 func (w *c19World) fail(format string, a ...any) {
+	// keeps the unit's sample list non-empty even when the very first case fails
+	w.st.Sample("FAILING: " + fmt.Sprintf(format, a...) + " | " + w.log.String())
 	w.f.Fatalf("%s\n  at virtual t=%dms; history: %s", fmt.Sprintf(format, a...), w.now, w.log.String())
 }
 
@@ -180,6 +186,9 @@ func tf(b bool) string {
 // with the model: present exactly while somebody holds an unexpired lease, and the
 // remaining TTL is the remaining lease.
 func (w *c19World) checkState() {
+	if c19APIOnly {
+		return
+	}
 	for _, k := range w.keys {
 		state, h := w.view(k)
 		exists, ttl := w.mr.Exists(k.name), w.mr.TTL(k.name)
@@ -656,21 +665,21 @@ func TestVerifC19ScriptedLateRelease(t *testing.T) {
 		st.Eval()
 		w := c19NewWorld(t, st, []int{3}, []int{sec, 2, 1})
 		const a, b, c = 0, 1, 2
-		w.acquire(a)                    // true
-		w.acquire(b)                    // false: a holds
+		w.acquire(a) // true
+		w.acquire(b) // false: a holds
 		w.forward(c19Lease(w.inst[a].sec) - 1)
-		w.acquire(b)                    // false: 1 ms of lease left
-		w.release(b)                    // false, a unaffected
-		w.forward(2)                    // a expired
-		w.acquire(b)                    // true
-		w.release(a)                    // false: late release
-		w.acquire(c)                    // false: b still holds
-		w.acquire(b)                    // true: refresh
-		w.forward(c19Lease(2) - 1)      // counted from the refresh
-		w.acquire(c)                    // false
-		w.release(b)                    // true
-		w.release(b)                    // false: already released
-		w.acquire(c)                    // true
+		w.acquire(b)               // false: 1 ms of lease left
+		w.release(b)               // false, a unaffected
+		w.forward(2)               // a expired
+		w.acquire(b)               // true
+		w.release(a)               // false: late release
+		w.acquire(c)               // false: b still holds
+		w.acquire(b)               // true: refresh
+		w.forward(c19Lease(2) - 1) // counted from the refresh
+		w.acquire(c)               // false
+		w.release(b)               // true
+		w.release(b)               // false: already released
+		w.acquire(c)               // true
 		if w.late != 1 {
 			t.Fatalf("scripted history: late release not recognised; %s", w.log.String())
 		}
